@@ -134,15 +134,22 @@ func TestVerifC18(t *testing.T) {
 	}()
 	thorough := vrep.Thorough()
 	for _, v := range variants() {
-		for _, limit := range []int{8, 130} {
+		limits := []int{8, 130}
+		if thorough {
+			limits = append(limits, 5000) // frames around the 4096-byte buffer of the buffered reader underneath
+		}
+		for _, limit := range limits {
 			sizes := []int{0, 2, 3, limit - 1, limit, limit + 1}
 			if limit > 128 {
 				sizes = append(sizes, 127, 128)
 			}
+			if limit > 4096 {
+				sizes = []int{0, 3, 4090, 4093, 4094, 4095, 4096, 4097, limit - 1, limit, limit + 1}
+			}
 			var seqs [][]int
 			var rec func(cur []int)
 			maxLen := 2
-			if thorough || limit == 8 {
+			if (thorough && limit < 4096) || limit == 8 {
 				maxLen = 3
 			}
 			rec = func(cur []int) {
